@@ -864,6 +864,15 @@ pub fn shard_run_grammar(prop: &str, tier: &str, seed: u64, replay_case: Option<
             return out;
         }
     }
+    // ---- C15: a body far above the limit, streamed to the real executable running under a memory
+    // limit (a container): refused or cut off, and the server is still there afterwards
+    if prop == "C15" && replay_case.map(|c| c == 60_000_000).unwrap_or(shard.k == (4 % shard.n)) {
+        if let Some(f) = limited_memory_oversize(&mut cov, &mut out.errors) {
+            out.found.push(f);
+            out.cov = cov;
+            return out;
+        }
+    }
     // C20 also rides on protocol histories (all outcome kinds through the handlers)
     if prop == "C20" && replay_case.is_none() {
         let n_hist = if thorough { 600 } else { 120 };
@@ -902,7 +911,7 @@ pub fn finalize_grammar(prop: &str, tier: &str, out: ShardOut, is_replay: bool) 
     top.sort_by(|a, b| b.1.cmp(a.1));
     let statuses: HashSet<String> = cov.situations.keys().filter(|k| k.starts_with("resp|")).map(|k| k.rsplit('|').next().unwrap().to_string()).collect();
     let rule = if prop == "C15" {
-        "grammar product route x method x client-id form x path-id form x content-type form x body class (dull corners sampled), executed in-process against servers holding 3 clients with chains and snapshots on both backends; each request is classified must-refuse / must-serve / ambiguous from the statement; universal rules: never 5xx/panic, stored state (full dump) changes only on a 200 POST to an add route; must-refuse => 4xx and unchanged state; bodies of limit-1, limit (one chunk, 1 MiB chunks) accepted and read back, limit+1 (one chunk, many chunks, limit then 1 byte) refused; uploads whose body transfer breaks off after 0/1/2/all chunks (known and never-seen clients) must be refused and change nothing. distinct_nontrivial = distinct (route, method, class, status) plus response tallies."
+        "grammar product route x method x client-id form x path-id form x content-type form x body class (dull corners sampled), executed in-process against servers holding 3 clients with chains and snapshots on both backends; each request is classified must-refuse / must-serve / ambiguous from the statement; universal rules: never 5xx/panic, stored state (full dump) changes only on a 200 POST to an add route; must-refuse => 4xx and unchanged state; bodies of limit-1, limit (one chunk, 1 MiB chunks) accepted and read back, limit+1 (one chunk, many chunks, limit then 1 byte) refused; uploads whose body transfer breaks off after 0/1/2/all chunks (known and never-seen clients) must be refused and change nothing; chunked uploads of 4 GiB on both upload routes to the real executable running under a 3 GiB address-space limit (refused or cut off, the process stays alive and serves, nothing stored). distinct_nontrivial = distinct (route, method, class, status) plus response tallies."
     } else {
         "every response produced by the grammar run (all routes, methods, refusals, unknown routes), by protocol histories through the handlers (200/404/409/410) and by requests against a storage that fails on purpose (500) is inspected by a tap in the HTTP client layer: Cache-Control must contain the no-store directive. distinct_nontrivial = distinct (route class, method, status) triples observed."
     };
@@ -915,10 +924,11 @@ pub fn finalize_grammar(prop: &str, tier: &str, out: ShardOut, is_replay: bool) 
         "statuses_observed": statuses.iter().cloned().collect::<Vec<_>>(),
         "counters": cov.counters,
         "situations_top": top.iter().take(50).map(|(k, v)| json!({"situation": k, "n": v})).collect::<Vec<_>>(),
+        "process_level_situations": cov.situations.iter().filter(|(k, _)| k.starts_with("memory-limited-executable|") || k.starts_with("stalled-oversize|") || k.starts_with("slow-storage|")).map(|(k, v)| json!({"situation": k, "n": v})).collect::<Vec<_>>(),
     });
     let mut required: Vec<&str> = vec!["status=200", "status=400", "status=404"];
     if prop == "C15" {
-        required.extend(["broken-body:AddVersion:error-after-1-chunk", "broken-body:AddSnapshot:error-after-2-chunks", "large:AddVersion:limit/one-chunk:status=200", "large:AddVersion:limit+1/one-chunk:status=400", "large:AddSnapshot:limit+1/limit-then-1:status=400", "MustRefuse", "MustServe", "Ambiguous"]);
+        required.extend(["broken-body:AddVersion:error-after-1-chunk", "broken-body:AddSnapshot:error-after-2-chunks", "large:AddVersion:limit/one-chunk:status=200", "large:AddVersion:limit+1/one-chunk:status=400", "large:AddSnapshot:limit+1/limit-then-1:status=400", "MustRefuse", "MustServe", "Ambiguous", "memory-limited-executable|add-snapshot", "memory-limited-executable|add-version"]);
     } else {
         required.extend(["|409", "|410", "|500", "|403", "unknown-route|"]);
     }
@@ -1468,6 +1478,122 @@ fn many_in_flight(prop: &str, addr: &str, seed: u64, cov: &mut Cov, label: &str)
 
 /// The real executable (debug logging on, SQLite): a grammar sample, then - for C20 - every endpoint
 /// with the data directory removed under the running server (storage errors).
+/// The real executable under `ulimit -v` (3 GiB of address space) is sent chunked uploads of 4 GiB
+/// (forty times the limit) on both upload routes. The sender stops when the server answers or
+/// closes the connection. Afterwards the process must be alive and serving, any answer must be a
+/// 4xx, and nothing was stored.
+fn limited_memory_oversize(cov: &mut Cov, errors: &mut Vec<String>) -> Option<Found> {
+    use std::io::{Read, Write};
+    use std::time::{Duration, Instant};
+    let bin = match crate::net::server_bin() {
+        Some(b) => b,
+        None => {
+            errors.push("the server executable is not built".into());
+            return None;
+        }
+    };
+    let dir = crate::scratch::ScratchDir::new("c15lim");
+    let mut started = None;
+    for _ in 0..4 {
+        let port = crate::net::free_port()?;
+        let addr = format!("127.0.0.1:{port}");
+        let args: Vec<String> = vec!["-c".into(), "ulimit -v 3145728 && exec \"$0\" \"$@\"".into(), bin.to_string_lossy().to_string(), "--listen".into(), addr.clone(), "--data-dir".into(), dir.path().to_string_lossy().to_string()];
+        if let Ok(p) = crate::net::Proc::start(std::path::Path::new("/bin/sh"), &args, &[], &[addr.clone()], Duration::from_secs(20)) {
+            started = Some((p, addr));
+            break;
+        }
+    }
+    let (mut proc, addr) = match started {
+        Some(x) => x,
+        None => {
+            errors.push("cannot start the server executable under a memory limit".into());
+            return None;
+        }
+    };
+    let c = Uuid::new_v4();
+    let first = crate::http::socket_request(&addr, &HttpReq::new("POST", &format!("/v1/client/add-version/{}", Uuid::nil())).header("X-Client-Id", &c.to_string()).header("Content-Type", CT_HISTORY).body(vec![7, 7, 7]), crate::http::Framing::ContentLength, Duration::from_secs(20));
+    let v = match first.header("X-Version-Id").and_then(|s| Uuid::parse_str(s).ok()) {
+        Some(v) => v,
+        None => {
+            errors.push(format!("memory-limited executable: first upload not accepted: {}", first.describe()));
+            return None;
+        }
+    };
+    for route in ["add-snapshot", "add-version"] {
+        let ct = if route == "add-version" { CT_HISTORY } else { CT_SNAPSHOT };
+        let total: u64 = 4 << 30;
+        let mut sent: u64 = 0;
+        let mut answer: Option<u16> = None;
+        let t0 = Instant::now();
+        match std::net::TcpStream::connect(&addr) {
+            Err(e) => {
+                errors.push(format!("memory-limited executable: connect: {e}"));
+                return None;
+            }
+            Ok(mut s) => {
+                let _ = s.set_write_timeout(Some(Duration::from_secs(30)));
+                let _ = s.set_read_timeout(Some(Duration::from_millis(1)));
+                let head = format!("POST /v1/client/{route}/{v} HTTP/1.1\r\nHost: x\r\nX-Client-Id: {c}\r\nContent-Type: {ct}\r\nTransfer-Encoding: chunked\r\n\r\n");
+                let chunk = vec![0x61u8; 1 << 20];
+                let mut framed = format!("{:x}\r\n", chunk.len()).into_bytes();
+                framed.extend_from_slice(&chunk);
+                framed.extend_from_slice(b"\r\n");
+                let mut buf = vec![];
+                let mut ok = s.write_all(head.as_bytes()).is_ok();
+                while ok && sent < total && t0.elapsed() < Duration::from_secs(120) {
+                    ok = s.write_all(&framed).is_ok();
+                    sent += chunk.len() as u64;
+                    // has the server answered already?
+                    let mut tmp = [0u8; 4096];
+                    if let Ok(n) = s.read(&mut tmp) {
+                        if n == 0 {
+                            break;
+                        }
+                        buf.extend_from_slice(&tmp[..n]);
+                        if buf.windows(4).any(|w| w == b"\r\n\r\n") {
+                            break;
+                        }
+                    }
+                }
+                if ok && sent >= total {
+                    let _ = s.write_all(b"0\r\n\r\n");
+                }
+                let _ = s.set_read_timeout(Some(Duration::from_secs(20)));
+                let mut tmp = [0u8; 4096];
+                while !buf.windows(4).any(|w| w == b"\r\n\r\n") {
+                    match s.read(&mut tmp) {
+                        Ok(0) | Err(_) => break,
+                        Ok(n) => buf.extend_from_slice(&tmp[..n]),
+                    }
+                }
+                if buf.starts_with(b"HTTP/1.") && buf.len() >= 12 {
+                    answer = std::str::from_utf8(&buf[9..12]).ok().and_then(|x| x.parse().ok());
+                }
+            }
+        }
+        std::thread::sleep(Duration::from_millis(300));
+        let alive = proc.alive();
+        cov.evaluations += 1;
+        cov.hit(format!("memory-limited-executable|{route}|4GiB-chunked|sent~{}MiB|answer={}", (sent >> 20).min(9999) / 64 * 64, answer.map(|a| a.to_string()).unwrap_or_else(|| "closed".into())));
+        let describe = format!("a chunked {route} upload of 4 GiB to the real executable running under a 3 GiB address-space limit ({} MiB sent before the server answered or closed, answer: {})", sent >> 20, answer.map(|a| a.to_string()).unwrap_or_else(|| "none".into()));
+        if !alive {
+            return Some(found("C15", format!("{describe}: the server process is gone"), json!({"origin": "memory-limited", "case": 60_000_000})));
+        }
+        if let Some(a) = answer {
+            if !(400..500).contains(&a) {
+                return Some(found("C15", format!("{describe}: not a 4xx"), json!({"origin": "memory-limited", "case": 60_000_000})));
+            }
+        }
+        let idx = crate::http::socket_request(&addr, &HttpReq::new("GET", "/"), crate::http::Framing::ContentLength, Duration::from_secs(20));
+        let child = crate::http::socket_request(&addr, &HttpReq::new("GET", &format!("/v1/client/get-child-version/{v}")).header("X-Client-Id", &c.to_string()), crate::http::Framing::ContentLength, Duration::from_secs(20));
+        let snap = crate::http::socket_request(&addr, &HttpReq::new("GET", "/v1/client/snapshot").header("X-Client-Id", &c.to_string()), crate::http::Framing::ContentLength, Duration::from_secs(20));
+        if idx.status != 200 || child.status != 404 || snap.status != 404 {
+            return Some(found("C15", format!("{describe}: afterwards GET / is answered {}, the child of the only version {} and the snapshot {} (expected 200, 404, 404)", idx.status, child.status, snap.status), json!({"origin": "memory-limited", "case": 60_000_000})));
+        }
+    }
+    None
+}
+
 fn binary_sample(prop: &str, seed: u64, n: usize, grams: &[Gram], cov: &mut Cov, errors: &mut Vec<String>) -> Option<Found> {
     use crate::http::{socket_request, Framing};
     use std::time::Duration;
